@@ -59,6 +59,9 @@ func (portHistWorld) Gen(seed uint64, tier string) core.Scenario {
 	m := portModel{listener: -1, stopped: map[int]bool{}}
 	var listens []int
 	n := r.PickInt(3, 6, 10, 20, 30)
+	if tier == "thorough" && r.Chance(1, 4) {
+		n = 60
+	}
 	for len(s.Ops) < n {
 		var op PortOp
 		switch r.Weighted(8, 10, 6, 6, 14, 12, 36, 8) {
